@@ -356,6 +356,21 @@ func uintVarValue(v Object, varName string) (vv uint) {
 	return
 }
 
+// RightMarginValue converts a value of *print-right-margin* to a column
+// count. A nil value, no margin, gives noMargin.
+func RightMarginValue(v Object, noMargin int) int {
+	switch tv := v.(type) {
+	case nil:
+		return noMargin
+	case Fixnum:
+		if 0 <= tv {
+			return int(tv)
+		}
+	}
+	TypePanic(NewScope(), 0, "*print-right-margin*", v, "non-negative fixnum")
+	return noMargin
+}
+
 func (p *Printer) createTree(obj Object, level int) *node {
 	n := node{value: obj}
 Top:
